@@ -350,6 +350,9 @@ func init() {
 		for i := 0; i < n; i++ {
 			cs = append(cs, genStructCases(r)...)
 		}
+		for i := 0; i < 25; i++ {
+			cs = append(cs, genMethodCase(r))
+		}
 		for i := 0; i < n; i++ {
 			cs = append(cs, evalCase("eval", genProgram(r, "fields")))
 		}
@@ -386,4 +389,97 @@ func describeType(fs []sField) string {
 	}
 	b.WriteString("}")
 	return b.String()
+}
+
+// ---- methods vs promoted fields (static types: reflect.StructOf cannot attach methods)
+
+type EmbF struct {
+	F string
+	G int
+}
+type methV struct{ EmbF }
+
+func (methV) F() string { return "method-F" }
+
+type methP struct{ EmbF }
+
+func (*methP) F() string { return "pmethod-F" }
+
+type methDeep struct {
+	methV
+	H string
+}
+type methNone struct {
+	EmbF
+	H string
+}
+
+func (methNone) Other() string { return "other" }
+
+func init() {
+	h.RegisterImpl("method-access", func(cmd, _ *sx.Sexp) (*sx.Sexp, string) {
+		which := cmd.Xs[1].A
+		emb := EmbF{F: "field-F", G: 7}
+		var data interface{}
+		wantF := ""
+		switch which {
+		case "valueMethod":
+			data, wantF = methV{emb}, "method-F"
+		case "valueMethodPtr":
+			data, wantF = &methV{emb}, "method-F"
+		case "ptrMethod":
+			data, wantF = &methP{emb}, "pmethod-F"
+		case "deep":
+			data, wantF = methDeep{methV{emb}, "h"}, "method-F"
+		default:
+			data, wantF = methNone{emb, "h"}, ""
+		}
+		type q struct{ src, want string }
+		qs := []q{{`{{ .G }}`, "7"}, {`{{ .EmbF.F }}`, "field-F"}, {`{{ .EmbF.G + 1 }}`, "8"}}
+		if wantF != "" {
+			qs = append(qs, q{`{{ .F() }}`, wantF}, q{`{{ x := .F }}{{ x() }}`, wantF})
+		} else {
+			qs = append(qs, q{`{{ .F }}`, "field-F"}, q{`{{ .["F"] }}`, "field-F"}, q{`{{ .Other() }}`, "other"})
+		}
+		if which == "deep" {
+			qs = append(qs, q{`{{ .H }}`, "h"}, q{`{{ .methV.G }}`, "ERR"})
+		}
+		files := map[string]string{}
+		for i, x := range qs {
+			files[fmt.Sprintf("/m%d.jet", i)] = x.src
+		}
+		set := newSetFor(files, "html", nil)
+		out := sx.L(sx.A("methods"))
+		oracle := ""
+		for i, x := range qs {
+			t, err := set.GetTemplate(fmt.Sprintf("/m%d.jet", i))
+			got := ""
+			if err != nil {
+				got = "PARSE"
+			} else {
+				var buf bytes.Buffer
+				xerr := executeContained(t, &buf, nil, data)
+				switch {
+				case xerr == nil:
+					got = buf.String()
+				default:
+					if ce, isCrash := xerr.(crashErr); isCrash && !ce.callee {
+						got = "PANIC " + ce.msg
+					} else {
+						got = "ERR"
+					}
+				}
+			}
+			out.Add(sx.L(sx.S(x.src), sx.S(got)))
+			if got != x.want && oracle == "" {
+				oracle = fmt.Sprintf("%s on %T renders %q, Go's selector rule (a method hides a deeper promoted field) demands %q", x.src, data, got, x.want)
+			}
+		}
+		return out, oracle
+	})
+}
+
+func genMethodCase(r *h.Rand) h.Case {
+	w := r.Pick([]string{"valueMethod", "valueMethodPtr", "ptrMethod", "deep", "none"})
+	return h.Case{Stream: "methods", NoModel: true, NonTrivial: true, Tags: []string{w}, Cmd: sx.L(sx.A("method-access"), sx.A(w))}
 }
